@@ -175,4 +175,16 @@ def cached_node_property(name):''')]),
     dict(name="twin: original consulted before anything changed", kind="twin", file=CORE,
          old="        if ind in tree.sliced_inds:\n            raise ValueError(f\"Index {ind} already sliced.\")",
          new="        if ind in self.sliced_inds:\n            raise ValueError(f\"Index {ind} already sliced.\")"),
+    dict(name="round3: reset skipped when no core is compiled", kind="break", file=CORE,
+         old="        # delete all derived information\n        for node in self.children:",
+         new="        if not self.contraction_cores:\n            return\n\n        # delete all derived information\n        for node in self.children:",
+         expect=("C02-LISTS", "iteration")),
+    dict(name="round3: ordered traversal bisects the whole queue", kind="break", file=CORE,
+         old="                            ci = bisect(scores[:i], score)", new="                            ci = bisect(scores, score)",
+         expect=("C02-TOPO", "_traverse_ordered")),
+    dict(name="twin: ordered traversal bounded with hi=", kind="twin", file=CORE,
+         old="                            ci = bisect(scores[:i], score)", new="                            ci = bisect(scores, score, 0, i)"),
+    dict(name="restore_ind recomputes the slice count from dimensions", kind="break", file=CORE,
+         old="        tree.multiplicity //= si.size\n", new="        tree.multiplicity = prod(tree.size_dict[ix] for ix in tree.sliced_inds)\n",
+         expect=("C02-MULTPAIR", "restore_ind")),
 ]
